@@ -14,13 +14,18 @@ import (
 	"runtime"
 	"sort"
 	"strings"
+	"sync"
 	"time"
 
 	"github.com/cespare/xxhash/v2"
 	"github.com/prometheus/prometheus/model/labels"
 	"google.golang.org/grpc"
 
+	"github.com/prometheus/prometheus/storage"
+
 	"github.com/thanos-io/thanos/pkg/component"
+	"github.com/thanos-io/thanos/pkg/dedup"
+	"github.com/thanos-io/thanos/pkg/query"
 	"github.com/thanos-io/thanos/pkg/store"
 	"github.com/thanos-io/thanos/pkg/store/labelpb"
 	"github.com/thanos-io/thanos/pkg/store/storepb"
@@ -74,9 +79,12 @@ type Input struct {
 	Batch int64    `json:"batch"`
 	Abort bool     `json:"abort"`
 	// Disabled sets the deprecated SeriesRequest.PartialResponseDisabled flag
-	Disabled bool      `json:"disabled,omitempty"`
-	Jitter   int       `json:"jitter"` // 0 none; n>0: receivers yield / sleep pseudo-randomly (seeded by n)
-	Stores   []StoreIn `json:"stores"`
+	Disabled bool `json:"disabled,omitempty"`
+	Jitter   int  `json:"jitter"` // 0 none; n>0: receivers yield / sleep pseudo-randomly (seeded by n)
+	// Sched, when non-empty, is a schedule for the per-store receiver goroutines: the sequence of
+	// store indices whose Recv call is let through next (see scheduler). Deterministic per input.
+	Sched  []int     `json:"sched,omitempty"`
+	Stores []StoreIn `json:"stores"`
 }
 
 // ---- building protobuf messages ----
@@ -123,6 +131,97 @@ type fakeStore struct {
 	storepb.StoreClient
 	in     StoreIn
 	jitter *uint64
+	idx    int
+	sch    *scheduler
+}
+
+// scheduler gates the Recv calls of the fake streams so that the interleaving of the receiver
+// goroutines (and thereby of their ring-buffer appends against the merge's pops) follows a
+// given order of store indices. It never blocks progress for good: a scheduled store that does
+// not show up within a bounded number of scheduler yields (e.g. because its receiver waits for
+// a free buffer slot) is skipped, and once the order is used up everything runs freely.
+type scheduler struct {
+	mu      sync.Mutex
+	waiting []chan struct{}
+	done    []bool
+	free    bool
+	trace   []int // store indices in the order their Recv calls were let through by the schedule
+}
+
+const schedSpins = 300
+
+func newScheduler(n int, order []int) *scheduler {
+	s := &scheduler{waiting: make([]chan struct{}, n), done: make([]bool, n)}
+	go func() {
+		for _, i := range order {
+			if i < 0 || i >= n {
+				continue
+			}
+			granted := false
+			for spin := 0; spin < schedSpins; spin++ {
+				s.mu.Lock()
+				ch, fin := s.waiting[i], s.done[i]
+				if ch != nil {
+					s.waiting[i] = nil
+					s.trace = append(s.trace, i)
+				}
+				s.mu.Unlock()
+				if ch != nil {
+					close(ch)
+					granted = true
+					break
+				}
+				if fin {
+					break
+				}
+				runtime.Gosched()
+			}
+			if granted { // let it run until it comes back for its next frame (or gets stuck elsewhere)
+				for spin := 0; spin < schedSpins; spin++ {
+					s.mu.Lock()
+					back := s.waiting[i] != nil || s.done[i]
+					s.mu.Unlock()
+					if back {
+						break
+					}
+					runtime.Gosched()
+				}
+			}
+		}
+		s.mu.Lock()
+		s.free = true
+		for i, ch := range s.waiting {
+			if ch != nil {
+				close(ch)
+				s.waiting[i] = nil
+			}
+		}
+		s.mu.Unlock()
+	}()
+	return s
+}
+
+func (s *scheduler) enter(ctx context.Context, i int) error {
+	s.mu.Lock()
+	if s.free {
+		s.mu.Unlock()
+		return nil
+	}
+	ch := make(chan struct{})
+	s.waiting[i] = ch
+	s.mu.Unlock()
+	select {
+	case <-ch:
+		return nil
+	case <-ctx.Done():
+		return ctx.Err()
+	}
+}
+
+func (s *scheduler) finish(i int) {
+	s.mu.Lock()
+	s.done[i] = true
+	s.mu.Unlock()
 }
 
 type fakeStream struct {
@@ -144,7 +243,18 @@ func (f *fakeStore) Series(ctx context.Context, _ *storepb.SeriesRequest, _ ...g
 	return &fakeStream{ctx: ctx, st: f, frames: fs}, nil
 }
 
-func (s *fakeStream) Recv() (*storepb.SeriesResponse, error) {
+func (s *fakeStream) Recv() (r *storepb.SeriesResponse, err error) {
+	if sc := s.st.sch; sc != nil {
+		if e := sc.enter(s.ctx, s.st.idx); e != nil {
+			sc.finish(s.st.idx)
+			return nil, e
+		}
+		defer func() {
+			if err != nil {
+				sc.finish(s.st.idx)
+			}
+		}()
+	}
 	if j := s.st.jitter; j != nil {
 		*j = *j*6364136223846793005 + 1442695040888963407
 		switch (*j >> 33) % 4 {
@@ -164,7 +274,7 @@ func (s *fakeStream) Recv() (*storepb.SeriesResponse, error) {
 	if s.i >= len(s.frames) {
 		return nil, io.EOF
 	}
-	r := s.frames[s.i]
+	r = s.frames[s.i]
 	s.i++
 	return r, nil
 }
@@ -190,13 +300,24 @@ func (r *RecServer) Context() context.Context { return r.Ctx }
 type Result struct {
 	Err    error
 	Frames []*storepb.SeriesResponse
+	// Trace: the realised part of Input.Sched (store index per Recv call let through in order)
+	Trace []int
 }
 
-// RunProxy builds a ProxyStore over fake clients for in.Stores and runs one Series call.
-func RunProxy(in Input, responseTimeout time.Duration) Result {
+// BuildProxy builds a ProxyStore over fake clients for in.Stores.
+func BuildProxy(in Input, responseTimeout time.Duration) *store.ProxyStore {
+	p, _ := buildProxy(in, responseTimeout)
+	return p
+}
+
+func buildProxy(in Input, responseTimeout time.Duration) (*store.ProxyStore, *scheduler) {
 	var clients []store.Client
+	var sch *scheduler
+	if len(in.Sched) > 0 {
+		sch = newScheduler(len(in.Stores), in.Sched)
+	}
 	for i := range in.Stores {
-		fs := &fakeStore{in: in.Stores[i]}
+		fs := &fakeStore{in: in.Stores[i], idx: i, sch: sch}
 		if in.Jitter > 0 {
 			j := uint64(in.Jitter)*1000003 + uint64(i)*7919 + 1
 			fs.jitter = &j
@@ -208,8 +329,13 @@ func RunProxy(in Input, responseTimeout time.Duration) Result {
 	if in.Lazy {
 		strategy = store.LazyRetrieval
 	}
-	p := store.NewProxyStore(nil, nil, func() []store.Client { return clients }, component.Query, labels.EmptyLabels(),
-		responseTimeout, strategy, store.WithLazyRetrievalMaxBufferedResponsesForProxy(in.Buf))
+	return store.NewProxyStore(nil, nil, func() []store.Client { return clients }, component.Query, labels.EmptyLabels(),
+		responseTimeout, strategy, store.WithLazyRetrievalMaxBufferedResponsesForProxy(in.Buf)), sch
+}
+
+// RunProxy runs one ProxyStore.Series call over fake clients for in.Stores.
+func RunProxy(in Input, responseTimeout time.Duration) Result {
+	p, sch := buildProxy(in, responseTimeout)
 	req := &storepb.SeriesRequest{
 		MinTime: 0, MaxTime: 1000,
 		Matchers:             []storepb.LabelMatcher{{Type: storepb.LabelMatcher_NEQ, Name: "__verif__", Value: "x"}},
@@ -225,7 +351,44 @@ func RunProxy(in Input, responseTimeout time.Duration) Result {
 	}
 	srv := &RecServer{Ctx: context.Background()}
 	err := p.Series(req, srv)
-	return Result{Err: err, Frames: srv.Frames}
+	res := Result{Err: err, Frames: srv.Frames}
+	if sch != nil {
+		sch.mu.Lock()
+		res.Trace = append([]int(nil), sch.trace...)
+		sch.mu.Unlock()
+	}
+	return res
+}
+
+// QResult: what a PromQL engine sees from the Thanos querier's Select.
+type QResult struct {
+	Err    error
+	Labels []labels.Labels
+	Warns  []string // distinct annotation texts
+}
+
+// RunQuerier runs query.NewQueryableCreator(...)(...).Querier(...).Select over the same proxy
+// (deduplication off, so no replica labels are dropped and no chunk is decoded).
+func RunQuerier(in Input, responseTimeout time.Duration, partialResponse bool) QResult {
+	p := BuildProxy(in, responseTimeout)
+	qc := query.NewQueryableCreator(nil, nil, p, 4, 5*time.Minute, dedup.AlgorithmPenalty, int(in.Batch))
+	q, err := qc(false, nil, nil, 0, partialResponse, false, nil, query.NoopSeriesStatsReporter).Querier(0, 1000)
+	if err != nil {
+		return QResult{Err: err}
+	}
+	defer q.Close()
+	set := q.Select(context.Background(), false, &storage.SelectHints{Start: 0, End: 1000},
+		labels.MustNewMatcher(labels.MatchNotEqual, "__verif__", "x"))
+	var out QResult
+	for set.Next() {
+		out.Labels = append(out.Labels, set.At().Labels().Copy())
+	}
+	out.Err = set.Err()
+	for w := range set.Warnings() {
+		out.Warns = append(out.Warns, w)
+	}
+	sort.Strings(out.Warns)
+	return out
 }
 
 // ---- Coq printers (types of Model/C03.v) ----
@@ -235,6 +398,15 @@ func CoqLabelsZ(ls []labelpb.ZLabel) string {
 	for _, l := range ls {
 		ps = append(ps, common.Pair(common.Bytes(l.Name), common.Bytes(l.Value)))
 	}
+	return common.List(ps)
+}
+
+// CoqLabelsP renders Prometheus labels.
+func CoqLabelsP(l labels.Labels) string {
+	var ps []string
+	l.Range(func(x labels.Label) {
+		ps = append(ps, common.Pair(common.Bytes(x.Name), common.Bytes(x.Value)))
+	})
 	return common.List(ps)
 }
 
